@@ -92,12 +92,20 @@ def check_t2(ctx, t0, rule="T2"):
             if b and b[0] != "self":
                 pidx[b[1]] = k
                 k += 1
-        sites = [n for n in walk(f["body"]) if n.get("k") == "mcall" and callee(n) == ADD_EXPR]
+        from . import norm as norm_
+        from .flow import Index
+        ix = Index(f["body"])
+        sites = []
+        for n in walk(f["body"]):
+            if n.get("k") == "mcall" and callee(n) == ADD_EXPR:
+                # the node built may be selected before the call: `let node = if c { A } else { B }; self.add_expr(node)`
+                for conds, v_ in norm_.value_alternatives(n["args"][0]):
+                    sites.append((n, conds, v_))
         n_sites += len(sites)
         seen_variants = []
         problems = []
-        for s_ in sites:
-            v = peel(s_["args"][0])
+        for s_, pre_conds, v in sites:
+            v = peel(v)
             if v.get("k") == "struct":
                 vp, fields = v["path"], {(int(x["name"]) if x["name"].isdigit() else x["name"]): x["e"] for x in v["fields"]}
             elif v.get("k") == "ctor":
@@ -125,18 +133,13 @@ def check_t2(ctx, t0, rule="T2"):
                     problems.append("%s.%s is %s, contract says %s" % (vn, ak, got, attrs[ak]))
             # type dispatch for two-variant builders
             if len(variants) == 2:
-                from .flow import Index
-                ix = Index(f["body"])
-                ifs = [a for a in ix.ancestors(s_) if a.get("k") == "if"]
                 okd = False
-                for a in ifs:
-                    cb, cms = chain(a["cond"])
+                for c_, pol in list(norm_.path_conditions(ix, s_)) + [(resolve(c0), p0) for c0, p0 in pre_conds]:
+                    cb, cms = chain(c_)
                     if [m[0] for m in cms] == ["get_type", "is_bit_vector"] and cb.get("k") == "local" and cb["id"] in pidx:
-                        in_then = contains(a["then"], s_)
-                        okd = in_then == vn.startswith("BV")
+                        okd = pol == vn.startswith("BV")
                     if [m[0] for m in cms] == ["get_type", "is_array"] and cb.get("k") == "local" and cb["id"] in pidx:
-                        in_then = contains(a["then"], s_)
-                        okd = in_then == vn.startswith("Array")
+                        okd = pol == vn.startswith("Array")
                 if not okd:
                     problems.append("%s is not selected by the operand's type (is_bit_vector)" % vn)
         if sorted(seen_variants) != sorted(variants):
@@ -157,15 +160,48 @@ def check_t2(ctx, t0, rule="T2"):
             if b and b[0] != "self":
                 pidx[b[1]] = k
                 k += 1
-        b = peel_block(f["body"])
-        ok = b.get("k") == "if" and "else" in b and peel(peel_block(b["then"])).get("k") == "local" and pidx.get(peel(peel_block(b["then"]))["id"]) == 0
-        if ok:
-            cs = show(b["cond"])
+        from . import norm as norm_
+        from .flow import Index
+        ix = Index(f["body"])
+        rev = {v_: k_ for k_, v_ in pidx.items()}
+
+        def trivial(cs_):
+            """the list of conjuncts is exactly the trivial-case test"""
+            cj = []
+            for c_ in cs_:
+                cj += conjuncts(c_)
             if shape == "by0":
-                ok = cs.replace(" ", "") in ("(by==0)", "(0==by)")
-            else:
-                ok = "lo == 0" in cs and "hi + 1" in cs and "get_bv_type" in cs
-        ctx.inst(rule, "builder:%s:normalises" % name, ok, f["span"], "Context::%s must return its operand unchanged in the trivial case (%s): `%s`" % (name, "full-range slice" if shape == "full" else "extension by 0", show(b.get("cond", b))[:100]))
+                c_ = cj[0] if len(cj) == 1 else {}
+                return c_.get("k") == "binary" and c_["op"] == "==" and ((is_local(c_["l"], rev.get(1)) and peel(c_["r"]).get("v") == 0) or (is_local(c_["r"], rev.get(1)) and peel(c_["l"]).get("v") == 0))
+            got = set()
+            for x in cj:
+                if x.get("k") != "binary" or x["op"] != "==":
+                    continue
+                for l, r in ((x["l"], x["r"]), (x["r"], x["l"])):
+                    if is_local(l, rev.get(2)) and peel(r).get("v") == 0:
+                        got.add("lo")
+                    ll = resolve(l)
+                    if ll.get("k") == "binary" and ll["op"] == "+" and ((is_local(ll["l"], rev.get(1)) and peel(ll["r"]).get("v") == 1) or (is_local(ll["r"], rev.get(1)) and peel(ll["l"]).get("v") == 1)):
+                        wb, wms = chain(resolve(r))
+                        if [m_[0] for m_ in wms][:1] == ["get_bv_type"] and is_local(wb, rev.get(0)):
+                            got.add("hi")
+            return len(cj) == 2 and got == {"lo", "hi"}
+        # the operand itself is returned exactly under the trivial-case test, the node is built exactly otherwise
+        leaves = [n for n in ix.nodes if n.get("k") == "local" and is_local(n, rev.get(0)) and ((ix.parent.get(id(n)) or {}).get("k") in ("return", "block", "blockexpr", "if"))]
+        returns_operand = []
+        for n in leaves:
+            par = ix.parent.get(id(n))
+            is_result = par.get("k") == "return" or (par.get("k") == "block" and par.get("tail") is n)
+            if is_result:
+                returns_operand.append(n)
+        adds = [n for n in ix.nodes if n.get("k") == "mcall" and callee(n) == ADD_EXPR]
+        ok = len(returns_operand) == 1 and len(adds) == 1
+        if ok:
+            c1 = norm_.path_conditions(ix, returns_operand[0])
+            c2 = norm_.path_conditions(ix, adds[0])
+            ok = bool(c1) and all(pol for _, pol in c1) and trivial([c_ for c_, _ in c1]) and any((not pol) and trivial([c_]) for c_, pol in c2)
+        b = {"cond": (norm_.path_conditions(ix, returns_operand[0]) or [({}, True)])[0][0]} if returns_operand else {}
+        ctx.inst(rule, "builder:%s:normalises" % name, ok, f["span"], "Context::%s must return its operand unchanged exactly in the trivial case (%s) and build the node otherwise: `%s`" % (name, "full-range slice" if shape == "full" else "extension by 0", show(b.get("cond", {}))[:100]))
     ctx.floor(rule, "add_expr sites in contracted builders", n_sites, 32)
     # Builder wrappers forward to the same-named Context builder with the same argument order
     n_w = 0
